@@ -287,6 +287,9 @@ func (p *Parser) parseTaxa() (int64, map[string]bool, error) {
 						stopdimensions = true
 					}
 					ntax, err = strconv.ParseInt(lit4, 10, 64)
+					if err == nil && ntax < 0 {
+						err = fmt.Errorf("negative value after 'NTAX=': %d", ntax)
+					}
 					if err != nil {
 						stopdimensions = true
 					}
@@ -382,6 +385,9 @@ func (p *Parser) parseData() (names []string, sequences map[string]string, nchar
 						stopdimensions = true
 					}
 					ntax, err = strconv.ParseInt(lit4, 10, 64)
+					if err == nil && ntax < 0 {
+						err = fmt.Errorf("negative value after 'NTAX=': %d", ntax)
+					}
 					if err != nil {
 						stopdimensions = true
 					}
@@ -397,6 +403,9 @@ func (p *Parser) parseData() (names []string, sequences map[string]string, nchar
 						stopdimensions = true
 					}
 					nchar, err = strconv.ParseInt(lit4, 10, 64)
+					if err == nil && nchar < 0 {
+						err = fmt.Errorf("negative value after 'NCHAR=': %d", nchar)
+					}
 					if err != nil {
 						stopdimensions = true
 					}
